@@ -1106,6 +1106,11 @@ impl<'s, K: Kind<X>, X: Item> VecExec<'s, K, X> {
                 let fplan = if matches!(kind, Nth | NthBack) { plan_of(Cb::Drop, op.f) } else { None };
                 if fplan.is_some() {
                     self.st.fault_cfg[F_DROP_PANIC] += 1;
+                    // if a skipped element's destructor panics, an implementation that had already
+                    // taken the target out of the iterator destroys it during the unwinding (R-unwind a)
+                    if let Some(g) = &exp {
+                        g.set_owner(OWN_DOOMED);
+                    }
                 }
                 let (r, fired) = guard(m(OWN_DOOMED), 0, fplan, || match kind {
                     Next => it.next(),
